@@ -551,6 +551,9 @@ def merge_stats(dst, src):
     dst["dist_maxerr"] = max(dst["dist_maxerr"], src["dist_maxerr"])
     for k, v in src.get("cpu", {}).items():
         dst.setdefault("cpu", {})[k] = dst.setdefault("cpu", {}).get(k, 0.0) + v
+    for k, v in src.get("hist_states", {}).items():
+        dst.setdefault("hist_states", {})[k] = dst.setdefault("hist_states", {}).get(k, 0) + v
+    dst["hist_sequences"] = dst.get("hist_sequences", 0) + (src["cases"] if "hist_states" in src else 0)
     if len(dst["samples"]) < 6:
         dst["samples"].extend(src["samples"][:1])
     dst["notes"] |= src["notes"]
@@ -1312,6 +1315,224 @@ def run_co_case(st, cname, cont, spec, label, routes, tol):
             )
 
 
+
+# ------------------------------------------------------------------------------------------
+# history items: ONE shared region / object asked a sequence of questions; cached bounding
+# data (bounded footprints, occupied spaces, cached methods) must not change any answer
+# ------------------------------------------------------------------------------------------
+HIST_LEN = {"quick": 3, "thorough": 4}  # number of queries per sequence (priors + probe)
+
+# alphabet for the footprint-based families: objects at clearly different altitudes; the
+# polygon is FOOT_OUTER with the hole FOOT_HOLE
+HIST_FOOT = [
+    ("box", (-1.5, 0.0, 0.0), (0.5, 0.4, 0.3), ORI[0]),  # over the material, ground level
+    ("box", (1.0, 0.0, 10.0), (0.5, 0.4, 0.3), ORI[4]),  # hovering entirely over the hole, high up
+    ("cone", (-1.0, 1.0, -7.0), (0.5, 0.5, 0.8), ORI[2]),  # over the material, far below
+    ("cyl", (2.9, 0.5, 0.9), (0.4, 0.4, 0.7), ORI[0]),  # straddles the outer edge and the top of the first slab
+    ("box", (-1.5, 0.5, 300.0), (0.5, 0.4, 0.3), ORI[1]),  # beyond any padded cache of a ground-level query
+    ("L", (6.0, 6.0, 4.0), (0.5, 0.5, 0.3), ORI[3]),  # outside in xy
+    ("U", (1.6, 0.0, -40.0), (0.6, 0.5, 0.3), ORI[7]),  # straddles the edge of the hole, deep below
+]
+# alphabet for the mesh container (the L mesh of build_container) and for the shared object
+HIST_MESH = [
+    ("box", "arm1", (0.0, 0.0, 0.0), (0.5, 0.4, 0.3), ORI[0]),
+    ("cone", "notch", (0.0, 0.0, 0.2), (0.5, 0.5, 0.8), ORI[2]),
+    ("cyl", "arm2", (0.0, 0.0, 1.1), (0.4, 0.4, 0.7), ORI[0]),  # pokes out of the top
+    ("box", "corner", (0.1, 0.1, -0.3), (0.5, 0.4, 0.3), ORI[4]),
+    ("L", "arm1", (0.0, 0.0, 9.0), (0.5, 0.5, 0.3), ORI[3]),  # far above
+    ("U", "arm2", (0.2, -0.1, 0.0), (0.6, 0.5, 0.3), ORI[7]),
+    ("box", "arm1", (30.0, 0.0, 0.0), (0.5, 0.4, 0.3), ORI[1]),
+]
+HIST_FAMILIES = ["footprint-intersects", "polyregion-footprint-intersects", "difference-footprints", "difference-box-footprint", "intersection-box-footprint", "mesh-container", "shared-object"]
+HIST_TALL_BOX = dict(dimensions=(5.6, 4.6, 800.0), position=(0.0, 0.0, 0.0))
+
+
+def _hist_alphabet(family, tier):
+    n = 6 if tier == "quick" else 7
+    if family in ("mesh-container", "shared-object"):
+        cont = get_container("Lmesh")
+        return [(k, tuple(float(x) for x in (np.asarray(cont["anchors"][an], float) + np.asarray(off, float))), dims, ori) for k, an, off, dims, ori in HIST_MESH[:n]]
+    return HIST_FOOT[:n]
+
+
+def _hist_build(family):
+    """-> (fresh shared thing, query(thing, obj) -> bool, oracle(Solid) -> (verdict, margin))"""
+    import shapely.geometry
+    from scenic.core.regions import BoxRegion, DifferenceRegion, IntersectionRegion, MeshVolumeRegion, PolygonalFootprintRegion, PolygonalRegion
+    from scenic.core.vectors import Vector
+
+    ring = S.Solid(*S.frame_mesh((FOOT_OUTER[0][0], FOOT_OUTER[0][1], FOOT_OUTER[2][0], FOOT_OUTER[2][1]), (FOOT_HOLE[0][0], FOOT_HOLE[0][1], FOOT_HOLE[2][0], FOOT_HOLE[2][1]), -2000.0, 2000.0))
+
+    def overlap_ring(SB):
+        rel = S.relate(ring, SB, FOOT_TOL)
+        return rel.overlap, (abs(rel.margin) if rel.margin is not None else 0.0)
+
+    def prism(ringpts):
+        return S.Solid(*S.prism_mesh(ringpts, -2000.0, 2000.0))
+
+    if family == "footprint-intersects":
+        reg = PolygonalFootprintRegion(shapely.geometry.Polygon(FOOT_OUTER, [FOOT_HOLE]))
+        return reg, (lambda r, o: o.intersects(r)), overlap_ring
+    if family == "polyregion-footprint-intersects":
+        pr = PolygonalRegion(polygon=shapely.geometry.Polygon(FOOT_OUTER, [FOOT_HOLE]), z=1.5)
+        return pr, (lambda r, o: o.intersects(r.footprint)), overlap_ring
+    if family == "difference-footprints":
+        reg = DifferenceRegion(PolygonalRegion(points=FOOT_OUTER), PolygonalRegion(points=FOOT_HOLE))
+        terms = [(prism(FOOT_OUTER), +1), (prism(FOOT_HOLE), -1)]
+        return reg, (lambda r, o: r.containsObject(o)), (lambda SB: S.contained_in_terms(SB, terms, FOOT_TOL)[:2])
+    if family in ("difference-box-footprint", "intersection-box-footprint"):
+        box = BoxRegion(dimensions=HIST_TALL_BOX["dimensions"], position=Vector(*HIST_TALL_BOX["position"]))
+        bs = solid_of_region(box)
+        if family == "difference-box-footprint":
+            reg = DifferenceRegion(box, PolygonalRegion(points=FOOT_HOLE))
+            terms = [(bs, +1), (prism(FOOT_HOLE), -1)]
+        else:
+            reg = IntersectionRegion(box, PolygonalRegion(polygon=shapely.geometry.Polygon(FOOT_OUTER, [FOOT_HOLE])))
+            terms = [(bs, +1), (prism(FOOT_OUTER), +1), (prism(FOOT_HOLE), -1)]
+        return reg, (lambda r, o: r.containsObject(o)), (lambda SB: S.contained_in_terms(SB, terms, FOOT_TOL)[:2])
+    if family == "mesh-container":
+        cont = build_container("Lmesh")  # fresh, not the per-worker cached one
+        terms = cont["terms"]
+        return cont["region"], (lambda r, o: r.containsObject(o)), (lambda SB: S.contained_in_terms(SB, terms, TOL)[:2])
+    if family == "shared-object":
+        spec = ("L", (0.0, 0.0, 1.0), (6.0, 6.0, 2.4), (10 * DEG, 0.0, 0.0))
+        a = mk_obj(spec)
+        SA = solid_of(a)
+
+        def orc(SB):
+            rel = S.relate(SA, SB, TOL)
+            return rel.overlap, (abs(rel.margin) if rel.margin is not None else 0.0)
+
+        def q(a_, o):
+            r1 = bool(a_.intersects(o))
+            r2 = bool(o.intersects(a_))
+            if r1 != r2:
+                raise _Asymmetric(r1, r2)
+            return r1
+
+        return a, q, orc
+    raise KeyError(family)
+
+
+class _Asymmetric(Exception):
+    pass
+
+
+class _CacheSpy:
+    """Harness-side observer of PolygonalFootprintRegion.approxBoundFootprint: was the bounded
+    volume built for the first time, reused from the cache, or rebuilt (cache replaced)?"""
+
+    def __init__(self, p):
+        from scenic.core.regions import PolygonalFootprintRegion
+
+        self.events = []
+        real = PolygonalFootprintRegion.approxBoundFootprint
+        spy = self
+
+        def approxBoundFootprint(self_, centerZ, height):
+            before = self_._bounded_cache
+            out = real(self_, centerZ, height)
+            if before is None:
+                spy.events.append("cache-fresh")
+            elif out is before[2]:
+                spy.events.append("cache-reused")
+            else:
+                spy.events.append("cache-replaced")
+            return out
+
+        p.set(PolygonalFootprintRegion, "approxBoundFootprint", approxBoundFootprint)
+
+    def take(self):
+        ev, self.events = self.events, []
+        return ev[-1] if ev else "no-bounded-footprint"
+
+
+def _hist_query(query, thing, obj, spy):
+    np.random.seed(NPSEED)
+    spy.take()
+    try:
+        got = bool(query(thing, obj))
+    except _Asymmetric as e:
+        got = ("asymmetric", e.args)
+    return got, spy.take()
+
+
+def hist_run_sequence(family, alphabet, seq, spy):
+    """Fresh shared thing, fresh objects (one per alphabet element, re-used when an element
+    repeats in the sequence so that per-object caches are exercised too)."""
+    thing, query, _ = _hist_build(family)
+    objs = {}
+    out = []
+    for i in seq:
+        if i not in objs:
+            objs[i] = mk_obj(alphabet[i])
+        out.append(_hist_query(query, thing, objs[i], spy))
+    return out
+
+
+def hist_group(item):
+    family, first, tier = item
+    st = new_stats()
+    st["hist_states"] = Counter()
+    alphabet = _hist_alphabet(family, tier)
+    n, L = len(alphabet), HIST_LEN[tier]
+    _, _, oracle = _hist_build(family)
+    truth = []
+    for spec in alphabet:
+        v, m = oracle(solid_of(mk_obj(spec)))
+        truth.append((v, m))
+    p = Patches()
+    try:
+        spy = _CacheSpy(p)
+        fresh = [hist_run_sequence(family, alphabet, (i,), spy)[0][0] for i in range(n)]
+        import itertools
+
+        for rest in itertools.product(range(n), repeat=L - 1):
+            seq = (first,) + rest
+            res = hist_run_sequence(family, alphabet, seq, spy)
+            st["cases"] += 1
+            for k, (got, state) in enumerate(res):
+                i = seq[k]
+                v, m = truth[i]
+                st["evaluations"] += 1
+                st["hist_states"][f"{family}:{state}"] += 1
+                kindname = alphabet[i][0]
+                case = {"kind": "hist", "family": family, "tier": tier, "seq": list(seq[: k + 1])}
+                hist = " -> ".join(f"#{j}:{alphabet[j][0]}@z={alphabet[j][1][2]:g}" for j in seq[: k + 1])
+                if isinstance(got, tuple):
+                    st["violations"].append((f"history:{family}:asymmetric:{kindname}", f"A.intersects(B) = {got[1][0]} but B.intersects(A) = {got[1][1]} after the query sequence {hist}", case))
+                    continue
+                if got != fresh[i]:
+                    st["violations"].append(
+                        (
+                            f"history-dependence:{family}:{state}:{kindname}",
+                            f"the answer depends on what the shared {family} was asked before: query sequence {hist} ends with {got}, the same question on a freshly built one gives {fresh[i]} "
+                            f"(exact solid geometry: {v}, margin {m:.4f})\nobject={alphabet[i]}",
+                            case,
+                        )
+                    )
+                if v is None:
+                    st["skipped_touching"] += 1
+                    continue
+                st["judged"] += 1
+                st["answers"].setdefault(f"hist:{family}", set()).add(v)
+                if got != v:
+                    st["violations"].append(
+                        (
+                            f"history:{family}:{state}:{kindname}",
+                            f"shared {family}, query sequence {hist}: the last answer is {got}, exact solid geometry says {v} (margin {m:.4f}; bounded-footprint cache state for this query: {state})\nobject={alphabet[i]}",
+                            case,
+                        )
+                    )
+    finally:
+        p.close()
+    if len(st["samples"]) < 1:
+        st["samples"].append({"kind": "hist", "family": family, "alphabet": alphabet[:2], "sequence_length": L})
+    r = _pack(st)
+    r["hist_states"] = dict(st["hist_states"])
+    return r
+
+
 # ------------------------------------------------------------------------------------------
 # oracle self-test (harness consistency, runs before anything is judged)
 # ------------------------------------------------------------------------------------------
@@ -1463,6 +1684,10 @@ def work(item):
 
     tag, payload = item
     t0 = _time.process_time()
+    if tag == "hist":
+        r = hist_group(payload)
+        r["cpu"] = {"history_items": _time.process_time() - t0}
+        return r
     r = oo_group(payload) if tag == "oo" else co_group(payload)
     part = "interior_point_groups" if _is_interior_point_group(tag, payload) else "base_lattice"
     r["cpu"] = {part: _time.process_time() - t0, "seam_checks": r.pop("cpu_seam", 0.0)}
@@ -1478,7 +1703,11 @@ def run(ctx):
     tracer()
     _nobounds_class()
     oo, co = plan(ctx.tier)
-    items = ctx.rotate([("oo", x) for x in oo] + [("co", x) for x in co])
+    hist = []
+    for fam in HIST_FAMILIES:
+        for first in range(len(_hist_alphabet(fam, ctx.tier))):
+            hist.append((fam, first, ctx.tier))
+    items = ctx.rotate([("oo", x) for x in oo] + [("co", x) for x in co] + [("hist", x) for x in hist])
     # interleave so that expensive groups are spread over workers
     tot = new_stats()
     for r in ctx.pmap(work, items, chunksize=1):
@@ -1508,7 +1737,9 @@ def run(ctx):
         precomputed_geometry_seam_checks=tot["seam_checks"],
         worker_cpu_s={k: round(v, 1) for k, v in tot.get("cpu", {}).items()},
         distance_max_abs_error_when_disjoint=tot["dist_maxerr"],
-        groups={"object_object": len(oo), "object_region": len(co)},
+        groups={"object_object": len(oo), "object_region": len(co), "history": len(hist)},
+        history_sequences=tot.get("hist_sequences", 0),
+        history_cache_states={k: tot.get("hist_states", {})[k] for k in sorted(tot.get("hist_states", {}))},
         rule="object/object: all ordered pairs of {box,cyl,cone,spheroid,two-body mesh,L mesh} x orientation pairs x size sets x "
         "placements {apart, gap 0.05, overlap, deep} along the tier's directions + anchor points inside bodies/cavities of A; "
         "object/region: the six shapes x orientations x sizes x placements {anchors, inside with clearance 0.05, crossing, mostly out, "
@@ -1532,7 +1763,10 @@ def run(ctx):
         "PASS 3 found no surface collision), so that route is decided by PASS 5 alone",
         "precomputed per-shape geometry: every object of the lattice is built with fixed dimensions (Object._with), so obj.occupiedSpace._scaledShape is present in the default route (asserted) "
         "and absent in the unscaled routes; for each A and B of every group the interior point, in-/circum-balls, _circumradius, body count, convexity flag and FCL transform are compared with the posed mesh (seam check)",
-        "not judged here: Object.intersects(Region) (only object/object and Region.containsObject are in the lattice); MeshSurfaceRegion / PolygonalFootprintRegion branches of MeshVolumeRegion.intersects",
+        "history items: one shared PolygonalFootprintRegion / PolygonalRegion.footprint / DifferenceRegion / IntersectionRegion / MeshVolumeRegion / Object is asked every sequence of HIST_LEN questions over an alphabet of "
+        "objects at altitudes {0, 10, -7, straddling the first slab, 300[, 4, -40]}; every answer of every sequence is compared with the exact oracle and with the same question on a freshly built region; "
+        "a harness-side wrapper of approxBoundFootprint records whether the bounded footprint was fresh / reused / replaced",
+        "not judged here: Object.intersects(Region) for mesh regions (only object/object and Region.containsObject are in the lattice); MeshSurfaceRegion / PolygonalFootprintRegion branches of MeshVolumeRegion.intersects",
     ]
     ctx.notes += sorted(tot["notes"])
     # vacuity guards, per family: a guard is waived only if the same family already has
@@ -1550,6 +1784,15 @@ def run(ctx):
     for d in one_sided:
         if fam_of(d) not in bad_fams:
             problems.append(f"pass {d} never produced both answers")
+    hs = tot.get("hist_states", {})
+    if "history" not in {("history" if v["signature"].startswith("history") else "") for v in ctx.violations}:
+        for fam in ("footprint-intersects", "polyregion-footprint-intersects", "difference-footprints", "difference-box-footprint"):
+            for state in ("cache-fresh", "cache-reused", "cache-replaced"):
+                if not hs.get(f"{fam}:{state}", 0):
+                    problems.append(f"history family {fam}: no query was answered with the bounded-footprint cache in state {state}")
+        for fam in HIST_FAMILIES:
+            if not any(k.startswith(fam + ":") for k in hs):
+                problems.append(f"history family {fam} did not run")
     if single_answer:
         problems.append(f"only one oracle answer occurred for {single_answer[:8]} ({len(single_answer)} pairs)")
     if tot["judged"] < 0.6 * tot["cases"]:
@@ -1579,6 +1822,28 @@ def replay(ctx, case):
         err = pose_error(spec, solid_of(mk_obj(spec)))
         if err > 1e-9:
             ctx.violation(f"occupiedSpace-pose:{spec[0]}", f"pose error {err} for {spec}", case)
+        return
+    if case["kind"] == "hist":
+        family, tier, seq = case["family"], case["tier"], tuple(case["seq"])
+        alphabet = _hist_alphabet(family, tier)
+        _, _, oracle = _hist_build(family)
+        i = seq[-1]
+        v, m = oracle(solid_of(mk_obj(alphabet[i])))
+        p = Patches()
+        try:
+            spy = _CacheSpy(p)
+            fresh = hist_run_sequence(family, alphabet, (i,), spy)[0][0]
+            got, state = hist_run_sequence(family, alphabet, seq, spy)[-1]
+        finally:
+            p.close()
+        kindname = alphabet[i][0]
+        if isinstance(got, tuple):
+            ctx.violation(f"history:{family}:asymmetric:{kindname}", f"asymmetric answers {got[1]} after {seq}", case)
+        else:
+            if got != fresh:
+                ctx.violation(f"history-dependence:{family}:{state}:{kindname}", f"sequence {seq}: {got}; fresh region: {fresh}; exact: {v}", case)
+            if v is not None and got != v:
+                ctx.violation(f"history:{family}:{state}:{kindname}", f"sequence {seq}: {got}; exact solid geometry: {v} (margin {m:.4f}), cache state {state}", case)
         return
     if case["kind"] == "seam":
         spec = _tup(case["spec"])
